@@ -147,6 +147,11 @@ impl Session {
                 let payload_len = encrypted_data.as_bytes().len();
                 if payload_len > max_payload_len as usize + MHDR_LEN + MIC_LEN {
                     info!("Dropping oversized payload.");
+                    // Class C reception happens outside a receive procedure: there is
+                    // nothing to end, the frame is just not for us.
+                    if ignore_mac {
+                        return Response::NoUpdate;
+                    }
                     return self.rx2_complete(configuration, region);
                 }
             }
